@@ -276,3 +276,100 @@ def interleave_rule(ctx: Ctx, rule: str = "INTERLEAVE") -> None:
         and "<" in src(upd[0].value)
     ctx.check(ok, rule, f"{q}: continues while any channel has pairings left", function=q, construct="interleaving loop does not continue while any cursor is below its length",
               message=f"{[short(s, 90) for s in upd]}", file=fi.file, node=loop)
+    # ---- initial state: cursors start at the first pairing, the first candidate onsets are computed like the later ones,
+    # the items tuple is read as (channel, pairings)
+    pre = [s for s in fi.node.body if getattr(s, "lineno", 0) < loop.lineno]
+    if cursor is not None:
+        init = [s for s in pre if isinstance(s, ast.Assign) and isinstance(s.targets[0], ast.Name) and s.targets[0].id == cursor]
+        zero = False
+        if len(init) == 1:
+            v = init[0].value
+            if isinstance(v, ast.ListComp) and isinstance(v.elt, ast.Constant) and v.elt.value == 0:
+                zero = True
+            if isinstance(v, ast.BinOp) and isinstance(v.op, ast.Mult) and isinstance(v.left, ast.List) and len(v.left.elts) == 1 \
+                    and isinstance(v.left.elts[0], ast.Constant) and v.left.elts[0].value == 0:
+                zero = True
+        ctx.check(zero, rule, f"{q}: every channel's cursor starts at its first pairing", function=q,
+                  construct="cursor of the interleaving does not start at zero", message=f"{[short(s, 80) for s in init]}", file=fi.file,
+                  node=init[0] if init else loop)
+        # every exhaustion test compares a cursor strictly with a length
+        tests = [c for c in ast.walk(fi.node) if isinstance(c, ast.Compare) and len(c.ops) == 1 and isinstance(c.left, ast.Subscript)
+                 and src(c.left.value) == cursor]
+        ctx.check(bool(tests) and all(isinstance(c.ops[0], ast.Lt) for c in tests), rule,
+                  f"{q}: {len(tests)} exhaustion test(s) compare the cursor strictly with the channel's number of pairings", function=q,
+                  construct="an exhaustion test of the interleaving is not `cursor < length`", message=f"{[short(c, 60) for c in tests]}",
+                  file=fi.file, node=tests[0] if tests else loop)
+        for c in tests:
+            r = c.comparators[0]
+            # the right side: len(<items>[i][1]) directly or through a list defined so
+            if isinstance(r, ast.Subscript) and isinstance(r.value, ast.Name):
+                d = [s for s in pre if isinstance(s, ast.Assign) and isinstance(s.targets[0], ast.Name) and s.targets[0].id == r.value.id]
+                r = d[0].value.elt if d and isinstance(d[0].value, ast.ListComp) else r
+            okr = isinstance(r, ast.Call) and isinstance(r.func, ast.Name) and r.func.id == "len" and r.args and isinstance(r.args[0], ast.Subscript) \
+                and isinstance(r.args[0].slice, ast.Constant) and r.args[0].slice.value == 1
+            ctx.check(okr, rule, f"{q}: `{short(c, 60)}` measures the channel's pairing list", function=q,
+                      construct="exhaustion test does not compare with the length of the channel's pairing list", message=short(r, 80), file=fi.file, node=c)
+    # onset table before the loop = onset table recomputed in the loop
+    nxt = [s for s in loop.body if isinstance(s, ast.Assign) and isinstance(s.targets[0], ast.Name) and isinstance(s.value, ast.ListComp)
+           and any(isinstance(a, ast.Attribute) and a.attr == "time" for a in ast.walk(s.value))]
+    for s in nxt:
+        first = [x for x in pre if isinstance(x, ast.Assign) and isinstance(x.targets[0], ast.Name) and x.targets[0].id == s.targets[0].id]
+        ctx.check(len(first) == 1 and ast.dump(first[0].value) == ast.dump(s.value), rule,
+                  f"{q}: `{s.targets[0].id}` is initialised with the expression that refreshes it each round", function=q,
+                  construct="initial next-onset table differs from the per-round one", message=f"{[short(x, 100) for x in first]} vs {short(s, 100)}",
+                  file=fi.file, node=s)
+        e = s.value.elt.body if isinstance(s.value.elt, ast.IfExp) else s.value.elt
+        # <items>[n][1][cursor[n]][0].time : second component of the item, first message of the pairing
+        chain = []
+        x = e.value if isinstance(e, ast.Attribute) else e
+        while isinstance(x, ast.Subscript):
+            chain.append(x.slice)
+            x = x.value
+        chain.reverse()
+        okc = isinstance(e, ast.Attribute) and e.attr == "time" and len(chain) == 4 and isinstance(chain[1], ast.Constant) and chain[1].value == 1 \
+            and isinstance(chain[3], ast.Constant) and chain[3].value == 0 and cursor is not None and src(chain[2]).startswith(cursor + "[")
+        ctx.check(okc, rule, f"{q}: a channel's next onset is the time of the first message of the pairing at its cursor", function=q,
+                  construct="next-onset expression does not read pairing[cursor][0].time of the channel's list", message=short(e, 100), file=fi.file, node=s)
+    # channel ids: first component of the items
+    if apps:
+        a = apps[0].value.args[0]
+        if isinstance(a, ast.Tuple) and len(a.elts) == 2:
+            nz2 = Normaliser()
+            nz2.run_block([s for s in loop.body if isinstance(s, ast.Assign) and s.lineno < apps[0].lineno])
+            chs = nz2.norm(a.elts[0]).canon()
+            idl = chs.split("[")[0]
+            d = [s for s in pre if isinstance(s, ast.Assign) and isinstance(s.targets[0], ast.Name) and s.targets[0].id == idl and isinstance(s.value, ast.ListComp)]
+            okid = bool(d) and isinstance(d[0].value.elt, ast.Subscript) and isinstance(d[0].value.elt.slice, ast.Constant) and d[0].value.elt.slice.value == 0
+            prs = nz2.norm(a.elts[1]).canon()
+            okpr = "][1][" in prs
+            ctx.check(okid and okpr, rule, f"{q}: channel ids are the keys and pairings the values of the pairing table's items", function=q,
+                      construct="interleaving mixes up the key and the value of the pairing table's items", message=f"{chs} / {prs}", file=fi.file, node=apps[0])
+    ctx.check(bool(nxt) and bool(incs) and all(s.lineno > incs[0].lineno for s in nxt), rule,
+              f"{q}: the next-onset table is refreshed after the cursor moved ({len(nxt)} refresh)", function=q,
+              construct="next-onset table is not refreshed after the cursor advance", message="the choice of the next round would use stale onsets",
+              file=fi.file, node=loop)
+    if hv is not None:
+        init = [s for s in pre if isinstance(s, ast.Assign) and isinstance(s.targets[0], ast.Name) and s.targets[0].id == hv]
+        okh = False
+        if len(init) == 1:
+            v = init[0].value
+            if isinstance(v, ast.Compare) and len(v.ops) == 1 and isinstance(v.left, ast.Call) and isinstance(v.left.func, ast.Name) and v.left.func.id == "len" \
+                    and isinstance(v.comparators[0], ast.Constant):
+                c0 = v.comparators[0].value
+                okh = (isinstance(v.ops[0], ast.Gt) and c0 == 0) or (isinstance(v.ops[0], ast.GtE) and c0 == 1) or (isinstance(v.ops[0], ast.NotEq) and c0 == 0)
+            elif isinstance(v, ast.Call) and isinstance(v.func, ast.Name) and v.func.id in ("bool", "any"):
+                okh = True
+        ctx.check(okh, rule, f"{q}: the loop is entered iff there is at least one channel", function=q,
+                  construct="entry condition of the interleaving is not `at least one channel with pairings`",
+                  message=f"{[short(s, 80) for s in init]}", file=fi.file, node=init[0] if init else loop)
+    # the flag and the kinds are passed through, imputation on by default
+    params = [a.arg for a in fi.node.args.args]
+    defaults = dict(zip(params[len(params) - len(fi.node.args.defaults):], fi.node.args.defaults))
+    inner = next((c for s in pre for c in ast.walk(s) if isinstance(c, ast.Call) and call_method(c)[1] == "get_message_pairings"), None)
+    if inner is not None:
+        passed = {k.arg: k.value for k in inner.keywords}
+        okp = all(isinstance(v, ast.Name) and v.id == k for k, v in passed.items()) and {"message_types", "impute_notes"} <= set(passed)
+        d = defaults.get("impute_notes")
+        ctx.check(okp and isinstance(d, ast.Constant) and d.value is True, rule, f"{q}: kinds, standard length and the imputation flag (default True) are passed through",
+                  function=q, construct="interleaving does not pass its arguments through to the pairing table, or imputation is off by default",
+                  message=short(inner, 120), file=fi.file, node=inner)
